@@ -229,3 +229,39 @@ Proof.
     + constructor; [apply O; exact Hd | constructor].
     + apply K. exact Hd.
 Qed.
+
+(* ================= C08: scaling = refilling with scaled weights ================= *)
+From Hgm Require Import MulAlg.
+
+Definition scale (f : T Xq) (s : stream) : stream := map (fun dw => (fst dw, xmul f (snd dw))) s.
+
+Theorem mul_fills_gen t f : finpos f -> sc (zero t) -> forall s a,
+  same a t -> wf a -> okstream t s -> fills_ok a s ->
+  mul_t (xfills a s) f = xfills (mul_t a f) (scale f s) /\ fills_ok (mul_t a f) (scale f s).
+Proof.
+  intros Hf Ct. induction s as [|[d w] s IH]; intros a Sa Wa O K; [split; [reflexivity|exact I]|].
+  inversion O as [|? ? [Od Ow] O']; subst. simpl in Od, Ow. destruct K as [Kd K].
+  cbn [scale map fst snd]. rewrite !fills_cons. cbn [fills_ok].
+  destruct (xfill a d w) as [a' o] eqn:Ea. simpl in Kd, K. subst o.
+  assert (E : xfill (mul_t a f) d (xmul f w) = (mul_t a' f, Done)).
+  { destruct Ow as [Ow|Ow].
+    - apply (fill_mul_gen f t); auto. apply (okd_of_spec t); auto. apply (sc_of_spec t); auto.
+    - rewrite fill_gated in Ea by assumption. inversion Ea; subst.
+      apply fill_gated. rewrite pos_scale; assumption. }
+  rewrite E. cbn [fst snd].
+  assert (Sa' : same a' t).
+  { change a' with (fst (a', Done)). rewrite <- Ea. eapply same_trans; [apply fill_same'|exact Sa]. }
+  assert (Wa' : wf a').
+  { change a' with (fst (a', Done)). rewrite <- Ea. destruct Ow as [Ow|Ow].
+    - apply wf_fill; auto. apply (okd_of_spec t); auto.
+    - rewrite fill_gated by assumption. exact Wa. }
+  destruct (IH a' Sa' Wa' O' K) as [E1 E2]. split; auto.
+Qed.
+
+Theorem mul_fills t f s : finpos f -> sc (zero t) -> okstream t s -> fills_ok (zero t) s ->
+  mul_t (xfills (zero t) s) f = xfills (zero t) (scale f s).
+Proof.
+  intros Hf Ct O K.
+  destruct (mul_fills_gen t f Hf Ct s (zero t) (same_zero t) (wf_zero t) O K) as [E _].
+  rewrite (mul_zero t f Hf) in E. exact E.
+Qed.
